@@ -11,7 +11,9 @@ cachedBlockFor 711-723, cachePut 728-733, nextBlockAt 214-264; bgzf/cache.go: bl
   `CacheOps` (LRU, FIFO, Random, StatsRecorder …).
 * `Cfg` selects the code variant: `clearOnRebase` = repair C03-1 (`setBase` drops the old data, so a block
   whose decompression failed does not claim to hold data); `peekGuard` = repair C03-2 (`cacheSwap` does not
-  recycle a block the cache still `Peek`s).  `Cfg.asIs` is the unchanged tree.
+  recycle a block the cache still `Peek`s); `failReset` = repair C09-2 (`decompressor.failAt`: after a failed
+  `readMember` the block is reset with `setOwner` — not used, no header, no data — and labelled with the
+  requested offset).  `Cfg.asIs` is the tree before these repairs, `Cfg.repaired` the current one.
 * Not modelled: `bg.Header`, ownership of blocks by several readers sharing one cache
   (`ErrContaminatedCache`), read-ahead workers (`rd > 1`).
 -/
@@ -82,10 +84,14 @@ deriving DecidableEq, Repr
 structure Cfg where
   peekGuard : Bool
   clearOnRebase : Bool
+  failReset : Bool
 deriving DecidableEq, Repr
 
-def Cfg.asIs : Cfg := ⟨false, false⟩
-def Cfg.repaired : Cfg := ⟨true, true⟩
+def Cfg.asIs : Cfg := ⟨false, false, false⟩
+def Cfg.repaired : Cfg := ⟨true, true, true⟩
+
+/-- a block whose load failed does not keep the data of its previous use -/
+def Cfg.noStale (cfg : Cfg) : Prop := cfg.clearOnRebase = true ∨ cfg.failReset = true
 
 structure Reader (σ : Type) where
   heap : Nat → RBlk
@@ -183,6 +189,13 @@ def rebase (cfg : Cfg) (b : RBlk) (off : Int) : RBlk :=
   if cfg.clearOnRebase then { b with base := off, offFile := off, offBlock := 0, hasData := false, data := [], pos := 0 }
   else { b with base := off, offFile := off, offBlock := 0 }
 
+/-- the block after a failed `readMember`: as `setBase` left it, or (repair C09-2) `failAt(off)`:
+`setOwner` (used = false, header and data dropped, offset zeroed) followed by `setBase(off)` -/
+def failedBlk (cfg : Cfg) (b1 : RBlk) (off : Int) : RBlk :=
+  if cfg.failReset then
+    { base := off, data := [], hasData := false, pos := 0, offFile := off, offBlock := 0, used := false, hsize := -1 }
+  else b1
+
 /-- the rest of `nextBlockAt` once the offset is known: `lazyBlock`, `setBase`, `readMember`, `setHeader`,
 `readFrom` -/
 def loadAt (cfg : Cfg) (f : File) (r : Reader σ) (off : Int) : Reader σ × Err :=
@@ -190,7 +203,7 @@ def loadAt (cfg : Cfg) (f : File) (r : Reader σ) (off : Int) : Reader σ × Err
   let b1 := rebase cfg (r.heap id) off
   match f.find off with
   | some m => (r.setB id { b1 with hsize := m.size, data := m.data, pos := 0, hasData := true }, .none)
-  | none => (r.setB id b1, if off ≥ f.len then .eof else .other)
+  | none => (r.setB id (failedBlk cfg b1 off), if off ≥ f.len then .eof else .other)
 
 /-- `dec.using(bg.current).nextBlockAt(off).wait()`: the new current block and the error -/
 def nextBlockAt (cfg : Cfg) (o : CacheOps σ) (f : File) (r : Reader σ) (off : Int) :
